@@ -346,7 +346,7 @@ def run(ctx):
     cdir = corpus_dir()
     for f in sorted(cdir.glob('*.json')) if cdir.is_dir() else []:
         replay(ctx, json.loads(f.read_text()), from_corpus=True)
-    n = 14 if ctx.tier == 'quick' else 200
+    n = 11 if ctx.tier == 'quick' else 200
     for i in range(n):
         check_case(ctx, gen_case(rng, i))
     if not ctx.extra_cov.get('guard_true_cases') and not ctx.violations:
